@@ -21,7 +21,7 @@ use vrp_core::models::*;
 use vrp_core::prelude::{GenericResult, SimpleTransportCost};
 use vrp_core::rosomaxa::evolution::TelemetryMode;
 use vrp_core::rosomaxa::prelude::*;
-use vrp_core::rosomaxa::utils::{Noise, Parallelism, RandomGen};
+use vrp_core::rosomaxa::utils::{Noise, Parallelism, Quota, RandomGen};
 use vrp_core::solver::search::*;
 use vrp_core::solver::*;
 use vrp_core::utils::Either;
@@ -86,9 +86,31 @@ impl Random for ScriptedRandom {
 }
 
 // ------------------------------------------------------------------ problem
+/// A computational quota the history can arm per step: it is reached from its k-th poll on (k drawn per step, or never),
+/// so a step is interrupted in the middle, after it has already applied insertions.
+struct StepQuota {
+    limit: std::sync::atomic::AtomicI64,
+    calls: std::sync::atomic::AtomicI64,
+}
+
+impl StepQuota {
+    fn arm(&self, limit: i64) {
+        self.calls.store(0, AtomicOrdering::SeqCst);
+        self.limit.store(limit, AtomicOrdering::SeqCst);
+    }
+}
+
+impl Quota for StepQuota {
+    fn is_reached(&self) -> bool {
+        let limit = self.limit.load(AtomicOrdering::SeqCst);
+        limit >= 0 && self.calls.fetch_add(1, AtomicOrdering::SeqCst) >= limit
+    }
+}
+
 struct Built {
     problem: Arc<Problem>,
     env: Arc<Environment>,
+    quota: Arc<StepQuota>,
     vidx: HashMap<String, i64>,
     names: Vec<&'static str>, // objective layer names, in goal order
 }
@@ -201,7 +223,14 @@ fn build(case: &Value) -> GenericResult<Built> {
     let on = |k: &str| feats[k].as_bool().unwrap_or(false);
     let seed = case["seed"].as_u64().unwrap_or(1);
     let random: Arc<dyn Random> = Arc::new(ScriptedRandom::new(seed));
-    let env = Arc::new(Environment::new(random, None, Parallelism::default(), Arc::new(|_: &str| {}), false));
+    let quota = Arc::new(StepQuota { limit: std::sync::atomic::AtomicI64::new(-1), calls: std::sync::atomic::AtomicI64::new(0) });
+    let env = Arc::new(Environment::new(
+        random,
+        Some(quota.clone() as Arc<dyn Quota>),
+        Parallelism::default(),
+        Arc::new(|_: &str| {}),
+        false,
+    ));
 
     let total_jobs = jobs.len();
     let make_goal = |fleet: Option<(&Fleet, &[Arc<Lock>])>| -> GenericResult<(GoalContext, Vec<&'static str>)> {
@@ -290,7 +319,7 @@ fn build(case: &Value) -> GenericResult<Built> {
         transport: p0.transport.clone(),
         extras: p0.extras.clone(),
     });
-    Ok(Built { problem, env, vidx, names })
+    Ok(Built { problem, env, quota, vidx, names })
 }
 
 // ------------------------------------------------------------------ dumps
@@ -583,7 +612,7 @@ fn run_case_inner(case: &Value) -> Value {
 
     // observer: cached vs recomputed after every single applied insertion
     let observed: Rc<RefCell<(usize, Vec<Value>)>> = Rc::new(RefCell::new((0, vec![])));
-    let bref: Rc<Built> = Rc::new(Built { problem: b.problem.clone(), env: b.env.clone(), vidx: b.vidx.clone(), names: b.names.clone() });
+    let bref: Rc<Built> = Rc::new(Built { problem: b.problem.clone(), env: b.env.clone(), quota: b.quota.clone(), vidx: b.vidx.clone(), names: b.names.clone() });
     let stage: Rc<RefCell<String>> = Rc::new(RefCell::new("init".to_string()));
     if observe {
         let observed = observed.clone();
@@ -601,7 +630,17 @@ fn run_case_inner(case: &Value) -> Value {
     }
 
     // start state: construction heuristic on everything
-    let init_ctx = InsertionContext::new(b.problem.clone(), b.env.clone());
+    let mut init_ctx = InsertionContext::new(b.problem.clone(), b.env.clone());
+    // some jobs start as pending in `ignored` (as conditional jobs - breaks, reloads - do): a legal home of a job
+    if let Some(ids) = case["ignored"].as_array() {
+        let ids: Vec<i64> = ids.iter().map(i64_of).collect();
+        let picked: Vec<Job> = init_ctx.solution.unassigned.keys().filter(|j| ids.contains(&job_num(j))).cloned().collect();
+        for j in picked {
+            init_ctx.solution.unassigned.remove(&j);
+            init_ctx.solution.ignored.push(j);
+        }
+        init_ctx.solution.ignored.sort_by_key(job_num);
+    }
     let mut state = RecreateWithCheapest::new(b.env.random.clone()).run(&rctx, init_ctx);
     let init = dump(&b, &state, true);
 
@@ -609,7 +648,9 @@ fn run_case_inner(case: &Value) -> Value {
     for (k, op) in case["history"].as_array().unwrap().iter().enumerate() {
         *stage.borrow_mut() = format!("step{k}:{}", op["op"].as_str().unwrap_or(""));
         let before = dump(&b, &state, false).to_string();
+        b.quota.arm(op["quota"].as_i64().unwrap_or(-1));
         let (next, note) = apply(&b, &rctx, &state, op);
+        b.quota.arm(-1);
         let after = dump(&b, &state, false).to_string();
         let mut st = json!({"op": op["op"], "note": note, "after": dump(&b, &next, true)});
         if before != after {
